@@ -642,6 +642,9 @@ func (e *Engine) VerifyFunc(fn *ssa.Function, c *Contract, prop string) {
 	if !caseNoCover {
 		e.emitCover(st, "cover#requires", "requires of "+e.curFunc+" are satisfiable")
 	}
+	if _, ok := c.Opts["deterministic"]; ok {
+		e.emitDeterministic(st, fn)
+	}
 	fr.ret = func(st *State, rets []*Val) {
 		e.checkPost(st, fr0(st, fn), c, rets)
 	}
